@@ -145,8 +145,8 @@ def signature(pid, code, idx, trace):
     """A narrow description of the failing situation: property/code/cause."""
     if code in OVERDUE:
         return "%s/%d/overdue" % (pid, code)
-    if code in (201, 202):
-        # root cause of an unbacked / doubled claim: the latest event before it that destroyed or replaced a record
+    if code in (201, 202, 701, 702, 704):
+        # root cause of an unbacked / doubled / lost claim: the latest event before it that destroyed or replaced a record
         ops = {}
         for k in range(min(idx, len(trace) - 1), -1, -1):
             f = trace[k].split()
